@@ -152,7 +152,7 @@ def mc_property(v, tier, seed, name, prof, fields=mc_suite.ALL_FIELDS, noids=Fal
         #     run and compare the implementation with itself
         if any(re.search(r"^run(from)? \S+ (full|partial) ", l) for l in lines) and not any("dgt:" in l for l in lines if l.startswith("run")):
             nocache = [re.sub(r"^(run(?:from)? \S+) (?:full|partial) ", r"\1 disabled ", l) for l in lines]
-            i2, _ = run_pair("mc", [mc_suite.block("c", [l for l in lines if l != "refenum"]), mc_suite.block("d", [l for l in nocache if l != "refenum"])], jobs=1)
+            i2, _ = run_pair("mc", [mc_suite.block("c", [l for l in lines if l != "refenum"]), mc_suite.block("d", [l for l in nocache if l != "refenum"])], jobs=1, stall=20)
             rc, rd = mc_suite.split_runs(i2.get("c", [])), mc_suite.split_runs(i2.get("d", []))
             for k, (x, y) in enumerate(zip(rc, rd)):
                 if "result=ok" in x["hdr"] and "result=ok" in y["hdr"]:
@@ -163,7 +163,7 @@ def mc_property(v, tier, seed, name, prof, fields=mc_suite.ALL_FIELDS, noids=Fal
         # (c) C10: an error reported by BFS must be at minimal depth.  The model's BFS is proved minimal
         #     (bfs_err_min_depth) and its error state comes with a trace, i.e. a genuine shallower violating state
         if v.pid == "C10":
-            i3, m3 = run_pair("mc", [mc_suite.block("k", [l for l in lines if l != "refenum"])], jobs=1)
+            i3, m3 = run_pair("mc", [mc_suite.block("k", [l for l in lines if l != "refenum"])], jobs=1, stall=20)
             ri3, rm3 = mc_suite.split_runs(i3.get("k", [])), mc_suite.split_runs(m3.get("k", []))
             runlines = [l for l in lines if l.startswith(("run ", "runfrom "))]
             for k, (x, y) in enumerate(zip(ri3, rm3)):
@@ -174,7 +174,7 @@ def mc_property(v, tier, seed, name, prof, fields=mc_suite.ALL_FIELDS, noids=Fal
                                 f"already fails: {y['T'][0][:400]}")
         # (b) does the implementation's own exploration deviate from the reference semantics on this scenario?
         ls = lines if "refenum" in lines else ["refenum"] + lines
-        i, m = run_pair("mc", [mc_suite.block("j", ls)], jobs=1)
+        i, m = run_pair("mc", [mc_suite.block("j", ls)], jobs=1, stall=20)
         ri, rs = mc_suite.split_runs(i.get("j", [])), mc_suite.ref_sets(m.get("j", []))
         rmod = mc_suite.split_runs(m.get("j", []))
         for k, (x, y) in enumerate(zip(ri, rs)):
@@ -218,7 +218,7 @@ def gen_crash_merge(rng, tier):
 
 def replay(v, path):
     lines = [l.strip() for l in open(path) if l.strip() and not l.startswith("#")]
-    i, m = run_pair("mc", [mc_suite.block("x", lines)], jobs=1)
+    i, m = run_pair("mc", [mc_suite.block("x", lines)], jobs=1, stall=20)
     d = mc_suite.compare(i.get("x", []), m.get("x", []), lines)
     print("implementation:"); print("\n".join(l[:300] for l in i.get("x", [])[:40]))
     print("model:"); print("\n".join(l[:300] for l in m.get("x", [])[:40]))
